@@ -120,6 +120,8 @@ func main() {
 		cmdPar(os.Args[2:])
 	case "ctx":
 		cmdCtx(os.Args[2:])
+	case "flags":
+		cmdFlags()
 	default:
 		fmt.Fprintln(os.Stderr, "unknown command")
 		os.Exit(2)
